@@ -178,10 +178,15 @@ func ParseContractsFile(path string) (*Contracts, error) {
 				return nil, fail(err)
 			}
 			fc.Name, fc.Params, fc.Results = name, params, results
-			if _, dup := cs.Funcs[name]; dup {
-				return nil, fail(fmt.Errorf("duplicate contract for %s", name))
+			if prev, dup := cs.Funcs[name]; dup {
+				// a contract may be written in several blocks (grouped by property)
+				if prev.Kind != kw {
+					return nil, fail(fmt.Errorf("contract for %s redeclared with a different kind", name))
+				}
+				fc = prev
+			} else {
+				cs.Funcs[name] = fc
 			}
-			cs.Funcs[name] = fc
 			cur = fc
 			curType = nil
 		case "type":
